@@ -128,7 +128,10 @@ def replay_interp(c, engine='interp'):
         d = Driver.get(prof)
         nat = d.run(b['prog'], vm='mbuff', mem=b['mem'], mbuff=b['mbuff'], extra=b['extra'], engine=engine, helpers=helpers,
                     allowed=b['allowed'], patch=b['patch'])
-        rf = run_ref(b, nat, helpers) if 'mem_addr' in nat else dict(status='illformed', reason='no addresses')
+        if 'mem_addr' not in nat and nat.get('status') in ('signal', 'panic') and not b['patch']:
+            # the native run died or hung before reporting its buffers; no pointer patches, so the reference run does not depend on the addresses
+            nat = dict(nat, mem_addr=0x10000000, mbuff_addr=0x20000000, extra_addr=0x30000000, msg=nat.get('msg', 'timeout' if nat.get('sig') == 14 else ''))
+        rf = run_ref(b, nat, helpers) if 'mem_addr' in nat else dict(status='illformed', reason=f'native run gave no buffer addresses: {str(nat)[:200]}')
         df, msg = differs(nat, rf)
         c['replay'] = dict(prog=b['prog'].hex() if len(b['prog']) < 4096 else f'<{len(b["prog"])//8} slots>', mem=b['mem'].hex(), mbuff=b['mbuff'].hex(),
                            patch=b['patch'], allowed=b['allowed'], helpers=helpers, profile=prof, native=dict((k2, v) for k2, v in nat.items() if k2 in ('status', 'value', 'msg', 'sig')),
